@@ -9,6 +9,13 @@ NOTE_COMMON = ("Trusted base: z3 5.1.0, CrossHair 0.0.110 symbolic models of str
                "Verdicts hold inside the stated bounds only; INCONCLUSIVE obligations are listed in the evidence and are never counted as discharged.")
 
 CHECKS = {
+ "C18": dict(
+    technique="bounded symbolic execution of the real alphabetical-attributes filter (CrossHair/z3): attribute keys by symbolic index over a collision alphabet, values/types unbounded symbolic strings; z3 injectivity lemma on the sort key",
+    text="Bounded model checking of alphabeticalattributes.Filter.__iter__ and _attr_key: for every ordered selection of 0..3 distinct keys from a 10-key alphabet that contains the None/''/namespace collision shapes, with unbounded symbolic values, "
+         "the output has exactly the input attributes (by identity), ordered by (namespace or '', name), independent of insertion order; other token types (unbounded symbolic type) pass through by identity. "
+         "_attr_key equals the documented key for unbounded strings; injectivity of that key is a direct z3 query on unbounded strings.",
+    note="Key alphabet instead of arbitrary names (symbolic dict keys are hashed); sorted()/OrderedDict trusted. " + NOTE_COMMON,
+    design="§3 C18"),
  "C17": dict(
     technique="bounded symbolic execution of the real whitespace filter (CrossHair/z3) against a stack-based reference; direct z3 query on the live SPACES_REGEX character class",
     text="Bounded model checking of whitespace.Filter.__iter__ and collapse_spaces: every stream of <= 2 (quick) / 3 (thorough) tokens with unbounded symbolic type and element name and text of <= 2 arbitrary Unicode characters "
